@@ -312,6 +312,15 @@ class ClientRoundtrip(Stream):
         {"fields": [[hs("a"), hs("1")], [hs("a"), hs("2")], [hs("é"), hs("")]], "files": [], "args": [[hs("q"), hs("a b&c=d")]], "via": "environ"},
         {"fields": [[hs("x"), hs("\r\n--x\r\n")]], "files": [[hs("f"), hx(b"\x00\xff\r\n--"), hs("a b.png"), "image/png"]], "args": [], "via": "environ"},
         {"fields": [], "files": [[hs("f"), hx(b""), hs("e.bin"), None]], "args": [], "via": "encode"},
+        # non-ASCII text values longer than one 64 KiB read of the form parser: a multi-byte character
+        # ends up split between two reads / two Data events
+        {"fields": [[hs("t"), hs("x" + "é" * 40000)]], "files": [[hs("f"), hx(b"d"), hs("f.bin"), None]], "args": [], "via": "environ"},
+        {"fields": [[hs("t"), hs("€" * 30000)]], "files": [[hs("f"), hx(b"d"), hs("f.bin"), None]], "args": [], "via": "environ"},
+        {"fields": [[hs("t"), hs("xy" + "\U0001f600" * 20000)], [hs("u"), hs("é" * 70000)]], "files": [[hs("f"), hx(b"d"), hs("f.bin"), None]], "args": [], "via": "environ"},
+        {"fields": [[hs("t"), hs("x" + "é" * 40000)]], "files": [], "args": [], "via": "encode"},
+        # the same through MultiPartParser with small buffers
+        {"fields": [[hs("t"), hs("aé€\U0001f600b")]], "files": [], "args": [], "via": "parser", "bs": 1},
+        {"fields": [[hs("é"), hs("é" * 50)], [hs("t"), hs("€" * 33)]], "files": [[hs("f"), hx("é".encode() * 9), hs("é.txt"), "text/plain"]], "args": [], "via": "parser", "bs": 3},
     ]
 
     def cases(self, rng, tier):
@@ -325,6 +334,14 @@ class ClientRoundtrip(Stream):
                 files.append([hs("u" + rand_name(rng, 2)), hx(content), hs(rand_name(rng) or "f"), rng.choice(CONTENT_TYPES)])
             args = [[hs(rand_name(rng) or "q"), hs(rand_text(rng))] for _ in range(rng.choice([0, 0, 1, 3]))]
             yield {"fields": fields, "files": files, "args": args, "via": rng.choice(["environ", "environ", "encode"])}
+        # MultiPartParser with small buffers / short reads over non-ASCII text values
+        for _ in range(300 if tier == "quick" else 5000):
+            fields = []
+            for _ in range(rng.choice([1, 1, 2, 3])):
+                v = "".join(rng.choice(["é", "ü", "€", "名", "\U0001f600", "a", " ", "\r\n", "-", "\u07ff", "\uffff"]) for _ in range(rng.choice([1, 3, 8, 20, 60])))
+                fields.append([hs(rand_name(rng) or "k"), hs(v)])
+            files = [[hs("u"), hx(rand_bytes(rng, b"bound")), hs("é.bin"), None]] if rng.random() < 0.3 else []
+            yield {"fields": fields, "files": files, "args": [], "via": "parser", "bs": rng.choice([1, 2, 3, 5, 7, 11, 64])}
 
     @staticmethod
     def expected(case):
@@ -363,9 +380,16 @@ class ClientRoundtrip(Stream):
             files = [(k, (f.filename, f.content_type, f.stream.read())) for k, f in req.files.items(multi=True)]
             args = list(req.args.items(multi=True))
         else:
+            from harness.c01 import ShortReader
+
             boundary, body = encode_multipart(data, boundary="Bound4ry")
-            p = MultiPartParser()
-            f1, f2 = p.parse(io.BytesIO(body), boundary.encode(), len(body))
+            if case["via"] == "parser":
+                p = MultiPartParser(buffer_size=case["bs"])
+                src = ShortReader(body, [case["bs"], 1, 2] * 7)
+            else:
+                p = MultiPartParser()
+                src = io.BytesIO(body)
+            f1, f2 = p.parse(src, boundary.encode(), len(body))
             form = list(f1.items(multi=True))
             files = [(k, (f.filename, f.content_type, f.stream.read())) for k, f in f2.items(multi=True)]
             args = self.expected(case)[2]
@@ -389,7 +413,8 @@ class ClientRoundtrip(Stream):
         return None
 
     def bucket(self, case, real_out):
-        return case["via"] + (" multipart" if case["files"] else " urlencoded" if case["via"] == "environ" else " multipart") + (" args" if case["args"] else "")
+        big = " big" if any(len(v) > 60000 for _, v in case["fields"]) else ""
+        return case["via"] + (" multipart" if case["files"] else " urlencoded" if case["via"] == "environ" else " multipart") + (" args" if case["args"] else "") + big
 
 
 CHECK = Check(
